@@ -200,6 +200,7 @@ fn op_name(op: &EOp) -> &'static str {
         EOp::Hash2Related(..) => "hash_to_curve_related_inputs",
         EOp::ZeroizedCopyEncoded(_) => "zeroized_copy_encoded",
         EOp::OperatorForm(..) => "operator_form",
+        EOp::GadgetValue(..) => "gadget_value",
     }
 }
 
@@ -411,6 +412,24 @@ fn build(op: &EOp, pool: &[PoolEntry]) -> Built {
             Built {
                 same_as: src_index(*i),
                 ..plain(a.into_group())
+            }
+        }
+        EOp::GadgetValue(h, input) => {
+            use ark_r1cs_std::alloc::{AllocVar, AllocationMode};
+            use ark_r1cs_std::R1CSVar;
+            let s = fq_from_hex(h);
+            let mode = if *input { AllocationMode::Input } else { AllocationMode::Witness };
+            let got = catch_unwind(AssertUnwindSafe(|| {
+                let cs = ark_relations::r1cs::ConstraintSystem::<Fq>::new_ref();
+                let var = <decaf377::r1cs::ElementVar as AllocVar<Fq, Fq>>::new_variable(cs, || Ok(s), mode).ok()?;
+                var.value().ok()
+            }));
+            match got {
+                Ok(Some(e)) => plain(e),
+                _ => Built {
+                    none: true,
+                    ..plain(Element::IDENTITY)
+                },
             }
         }
         EOp::OperatorForm(k, i, j, h) => {
